@@ -213,7 +213,13 @@ pub struct InitState {
     pub x: Option<u8>,
     pub y: Option<u8>,
     pub desc: Vec<(String, i32)>,
+    /// state the program must not depend on, varied with the input index: bit0 C, bit1 Z, bit2 N,
+    /// bit3 V on entry; A and the scratch byte cctmp from small patterns
+    pub entry: u8,
 }
+
+pub const ENTRY_A: [u8; 4] = [0xA5, 0x00, 0x80, 0x01];
+pub const ENTRY_TMP: [u8; 3] = [0x00, 0xFF, 0x5A];
 
 /// Enumerate the cartesian product of the input variables as concrete init states.
 pub fn enumerate_inputs(prep: &Prepared, inputs: &[InputVar]) -> Result<Vec<InitState>, String> {
@@ -241,6 +247,16 @@ pub fn enumerate_inputs(prep: &Prepared, inputs: &[InputVar]) -> Result<Vec<Init
         }
         out = next;
     }
+    // few inputs: repeat them, so that several entry states (carry set / clear ...) are tried
+    if !out.is_empty() && out.len() < 4 {
+        let base = out.clone();
+        while out.len() < 4 {
+            out.extend(base.iter().cloned());
+        }
+    }
+    for (k, st) in out.iter_mut().enumerate() {
+        st.entry = (k % 48) as u8;
+    }
     Ok(out)
 }
 
@@ -259,6 +275,12 @@ pub fn run_emu(m: &mut Machine, entry: u16, init: &InitState, budget: u64) -> (S
     if let Some(y) = init.y {
         m.cpu.y = y;
     }
+    m.cpu.c = init.entry & 1 != 0;
+    m.cpu.z = init.entry & 2 != 0;
+    m.cpu.n = init.entry & 4 != 0;
+    m.cpu.v = init.entry & 8 != 0;
+    m.cpu.a = ENTRY_A[(init.entry as usize >> 1) % 4];
+    m.cpu.mem[asm65::CCTMP as usize] = ENTRY_TMP[(init.entry as usize) % 3];
     let s0 = m.cpu.s;
     let mut stop = m.cpu.call(entry, budget);
     if stop == Stop::Returned && m.cpu.s != s0 {
